@@ -50,6 +50,7 @@ import SMGo.Model.GCMGlue
 import SMGo.Model.GCMGlueArm64
 import SMGo.Proofs.GCMGlueArm64Repeat
 import SMGo.Props.C10
+import SMGo.Props.C06
 namespace SMGo.Props.C10Arm64
 open SMGo SMGo.Model SMGo.Model.Mem SMGo.Model.GCMGlueA64
 open SMGo.Proofs.GCMGlue (InRegion UnchangedOutside Nowhere Disjoint ExactOverlap Admissible fresh)
@@ -122,6 +123,33 @@ theorem ensureCapacityA64_contract (h : Heap) (s : Slice) (asked : Nat) (hwf : W
   · rw [← Proofs.GCMGlueA64.read_takeS h' head s.len (by rw [eo.ret_len]; omega)]; exact eo.pre
   · rw [eo.out_eq, Proofs.GCMGlueA64.read_dropS]
 
+/-! ### cryptoBlocks -/
+
+/-- **The length-class schedule of the arm64 glue, on the heap.**  `cryptoBlocks(out, in, J0)` with
+    `out` at least as long as `in`, a 16-byte `J0` in another array than `out`, and `in` either
+    outside `out[0:len(in))` or starting at the same address (the in-place case): no panic — no
+    slice bound is exceeded in any class, no kernel leaves its array —, only `out[0 : len(in))`
+    changes, and it shows GCTR_K(inc32(J0), in) of SP 800-38D; equivalently what the value-level
+    schedule `Model.GCM.cryptoBlocks` of C06 computes (`schedule_eq_gctr`).  Every length up to the
+    bound Seal/Open enforce; the 32-bit counter wrap is inside `inc32`. -/
+theorem cryptoBlocksA64_gctr (k : Kernels) (hk : KSpec k) (h : Heap) (out inp pre : Slice)
+    (hwo : WF h out) (hwi : WF h inp) (hwp : WF h pre) (hpl : pre.len = 16)
+    (hle : inp.len ≤ out.len)
+    (hcompat : inp.arr ≠ out.arr ∨ inp.off = out.off ∨ inp.off + inp.len ≤ out.off ∨
+      out.off + inp.len ≤ inp.off)
+    (hpo : pre.arr ≠ out.arr) (hmax : inp.len ≤ maxPlain) :
+    ∃ h', cryptoBlocks k h out inp pre = .ok h' ∧
+      UnchangedOutside h h' (InRegion out 0 inp.len) ∧
+      Mem.read h' { out with len := inp.len }
+        = Spec.GCM.gctr k.E (Spec.GCM.inc32 (Spec.GCM.blockToNat (Mem.read h pre))) (Mem.read h inp) ∧
+      (∀ (hp : Model.GCM.HPow) (y : Nat), Mem.read h' { out with len := inp.len }
+        = (Model.GCM.cryptoBlocks k.E hp false (Spec.GCM.blockToNat (Mem.read h pre)) y (Mem.read h inp)).1) := by
+  obtain ⟨h', e, hu, hr⟩ := Proofs.GCMGlueA64.cryptoBlocks_spec hk
+    ⟨hwo, hwi, hwp, hpl, hle, hcompat, hpo⟩ hmax
+  refine ⟨h', e, hu, hr, fun hp y => ?_⟩
+  rw [C06.schedule_eq_gctr hk.E_len]
+  exact hr
+
 /-! ### Seal -/
 
 /-- **Seal on the arm64 path computes SP 800-38D and appends it.**  For every heap, every
@@ -150,6 +178,20 @@ theorem sealA64_appends (g : GcmA64) (hk : KSpec g.k) (ht : g.tagSize ≤ 16)
     Proofs.GCMGlueA64.seal_core g hk ht h dst nonce pt aad hwf hwn hwp hwa hn hp hadm
   exact ⟨h', ret, e, hread, hshare, hun, wr, hdis nonce hwn hadm.1, hdis aad hwa hadm.2.1,
     fun hd => hdis pt hwp hd, hdis⟩
+
+/-- the same with the value-level model of the arm64 order of operations (`Model.GCM.sealGlue`,
+    property C06: encrypt everything, then GHASH): the heap-level glue appends exactly what that
+    model returns (by `C06_seal_glue`) -/
+theorem sealA64_is_sealGlue (g : GcmA64) (hk : KSpec g.k) (ht : g.tagSize ≤ 16)
+    (h : Heap) (dst nonce pt aad : Slice)
+    (hwf : WF h dst) (hwn : WF h nonce) (hwp : WF h pt) (hwa : WF h aad)
+    (hn : nonce.len = g.nonceSize) (hp : pt.len ≤ maxPlain)
+    (hadm : Admissible dst nonce pt aad) :
+    ∃ h' ret, sealA64 g h dst nonce pt aad = .ok (h', ret) ∧
+      Mem.read h' ret = Mem.read h dst ++
+        Model.GCM.sealGlue g.k.E g.tagSize (Mem.read h nonce) (Mem.read h pt) (Mem.read h aad) := by
+  obtain ⟨h', ret, e, hread, _⟩ := sealA64_appends g hk ht h dst nonce pt aad hwf hwn hwp hwa hn hp hadm
+  exact ⟨h', ret, e, by rw [C06.C06_seal_glue hk.E_len]; exact hread⟩
 
 /-- the in-place idiom `Seal(pt[:0], nonce, pt, aad)`: no panic, the result is the sealed message;
     it lies over the plaintext iff the plaintext's capacity has room for the tag -/
@@ -349,6 +391,25 @@ theorem sealA64_appends_sm4 (key : Bytes) (nonceSize tagSize : Nat) (ht : tagSiz
       h dst nonce pt aad hwf hwn hwp hwa hn hp hadm
   exact ⟨h', ret, e, hread, hshare, hun⟩
 
+/-- `openA64_decides` for SM4-GCM as the driver runs it (tag sizes crypto/cipher lets through) -/
+theorem openA64_decides_sm4 (key : Bytes) (nonceSize tagSize : Nat) (ht12 : 12 ≤ tagSize) (ht : tagSize ≤ 16)
+    (h : Heap) (dst nonce ct aad : Slice)
+    (hwf : WF h dst) (hwn : WF h nonce) (hwc : WF h ct) (hwa : WF h aad)
+    (hn : nonce.len = nonceSize) (h2 : ct.len ≤ maxPlain + tagSize)
+    (hadm : Admissible dst nonce ct aad) :
+    match Spec.GCM.openGCM (Spec.SM4.cryptFast (Spec.SM4.keySchedule key)) tagSize
+        (Mem.read h nonce) (Mem.read h ct) (Mem.read h aad) with
+    | some p =>
+      ∃ h' ret, openA64 (newGCM key nonceSize tagSize) h dst nonce ct aad = .ok (h', some ret) ∧
+        Mem.read h' ret = Mem.read h dst ++ p ∧
+        (Shares ret dst ↔ dst.arr ≠ none ∧ ct.len - tagSize ≤ dst.cap - dst.len) ∧
+        UnchangedOutside h h' (InRegion ret dst.len (ct.len - tagSize))
+    | none =>
+      ∃ h', openA64 (newGCM key nonceSize tagSize) h dst nonce ct aad = .ok (h', none) ∧
+        UnchangedOutside h h' Nowhere ∧ (∀ s, WF h s → Mem.read h' s = Mem.read h s) :=
+  openA64_decides (newGCM key nonceSize tagSize) (kspec_sm4 key nonceSize tagSize) ht12 ht
+    h dst nonce ct aad hwf hwn hwc hwa hn h2 hadm
+
 /-- **Path independence at the level of the Go glue**: on the same admissible call the amd64 glue
     (fused routine = specification, `GCMGlue.newGCM`) and the arm64 glue return slices that show the
     same bytes and share dst's pointer in the same cases -/
@@ -537,13 +598,33 @@ example : (match openA64 toyG [[1, 2], [9], ngSealed.take 14 ++ [0]] Slice.nil n
     | _ => [])
     = [[1, 2], [9], ngSealed.take 14 ++ [0]] := by decide
 
+/-- the real thing, evaluated by the kernel: SM4-GCM through the arm64 glue (specification kernels),
+    one byte, in place with spare capacity — the result lies over the plaintext, the capacity
+    behind it is untouched, and the bytes are the specification's -/
+example :
+    (match sealA64 (newGCM (List.replicate 16 0) 12 12)
+        [List.replicate 12 0, [], [0x41] ++ List.replicate 15 0]
+        { arr := some 2, off := 0, len := 0, cap := 16 }
+        { arr := some 0, off := 0, len := 12, cap := 12 }
+        { arr := some 2, off := 0, len := 1, cap := 16 }
+        { arr := some 1, off := 0, len := 0, cap := 0 } with
+      | .ok (h', ret) => (decide (Shares ret { arr := some 2, off := 0, len := 0, cap := 16 }),
+          ret.len, (arrayOf h' 2).drop 13,
+          decide (Mem.read h' ret =
+            Spec.GCM.sealGCM (Spec.SM4.cryptFast (Spec.SM4.keySchedule (List.replicate 16 0))) 12
+              (List.replicate 12 0) [0x41] []))
+      | _ => (false, 0, [], false))
+    = (true, 13, [0, 0, 0], true) := by decide +kernel
+
 end examples
 
 #print axioms kspec_sm4
 #print axioms admissible_nil
 #print axioms ensureCapacityA64_spec
 #print axioms ensureCapacityA64_contract
+#print axioms cryptoBlocksA64_gctr
 #print axioms sealA64_appends
+#print axioms sealA64_is_sealGlue
 #print axioms sealA64_inplace
 #print axioms sealA64_panics
 #print axioms openA64_appends
@@ -555,6 +636,7 @@ end examples
 #print axioms sealA64_idempotent
 #print axioms openA64_idempotent
 #print axioms sealA64_appends_sm4
+#print axioms openA64_decides_sm4
 #print axioms seal_paths_agree
 #print axioms ensureCapacityA64_old
 
